@@ -5,7 +5,6 @@ package main
 // gRPC, real brokers, with or without yamux multiplexing).
 
 import (
-	"testing"
 	"context"
 	"fmt"
 	"os"
@@ -13,6 +12,7 @@ import (
 	"strings"
 	"sync"
 	"sync/atomic"
+	"testing"
 	"time"
 
 	plugin "github.com/hashicorp/go-plugin"
@@ -606,6 +606,53 @@ func runMuxReaccept(role string) (impl, pred string) {
 	return impl, "ok"
 }
 
+// runMuxDialFirstGap: dial first, accept `gap` later (inside the documented window), the dial being made `start` after
+// the pair was set up — so that the gap lies at an arbitrary phase of anything that runs periodically since then: the
+// parked knock is still there when the listener shows up, and the first call is answered by it.
+func runMuxDialFirstGap(role string, start, gap time.Duration) (impl, pred string) {
+	p, err := newGrpcPair(true)
+	if err != nil {
+		return "setup-error", "FAIL:setup"
+	}
+	defer p.close()
+	acceptor, dialler := p.plug, p.host
+	if role == "client" {
+		acceptor, dialler = p.host, p.plug
+	}
+	time.Sleep(start)
+	type res struct {
+		ans string
+		err error
+	}
+	ch := make(chan res, 1)
+	go func() {
+		ans, conn, err := pingKeep(dialler, 47, 8*time.Second)
+		if conn != nil {
+			conn.Close()
+		}
+		ch <- res{ans, err}
+	}()
+	time.Sleep(gap)
+	go func() {
+		defer func() { recover() }()
+		servePingPong(acceptor, 47)
+	}()
+	first := "failed"
+	select {
+	case r := <-ch:
+		if r.err == nil && r.ans == "47" {
+			first = "ok"
+		}
+	case <-time.After(12 * time.Second):
+		first = "hang"
+	}
+	impl = "first=" + first
+	if first != "ok" {
+		return impl, "FAIL:dial-first-within-window-not-served"
+	}
+	return impl, "ok"
+}
+
 // runMuxReconnect: a brokered connection whose transport is replaced under it (the brokered server ages its connections:
 // keepalive MaxConnectionAge, so gRPC connects again by itself): the second transport of the connection dialled for id 44
 // is served by the listener accepted for 44 as well — not by the main listener, and it does not take another id's place
@@ -1175,6 +1222,26 @@ func init() {
 		for _, role := range []string{"server", "client"} {
 			impl, pred := runMuxIdZero(role)
 			o.emit("!C08.id-zero role="+role, impl, pred)
+		}
+		// dial first, accept 2 s later, at two phases of the pair's life (3 s and 5.2 s after set-up)
+		{
+			type dg struct {
+				role       string
+				start      int
+				impl, pred string
+			}
+			var dgs []*dg
+			for _, role := range []string{"server", "client"} {
+				for _, st := range []int{3000, 5200} {
+					dgs = append(dgs, &dg{role: role, start: st})
+				}
+			}
+			parallel(len(dgs), len(dgs), func(i int) {
+				dgs[i].impl, dgs[i].pred = runMuxDialFirstGap(dgs[i].role, time.Duration(dgs[i].start)*time.Millisecond, 2*time.Second)
+			})
+			for _, x := range dgs {
+				o.emit(fmt.Sprintf("!C08.dial-first-gap role=%s start=%d gap=2000", x.role, x.start), x.impl, x.pred)
+			}
 		}
 		// a brokered connection that connects a second time by itself (its server retires transports by age)
 		{
